@@ -558,6 +558,50 @@ CHECKS = {
                 "sources x termination patterns x every dispose time) whose disagreement with a passing analysis is a checker crash.",
         "technique": "K5 ownership contracts by least-fixpoint analysis on the real AST + K2 class refinement (AutoDetachObserver) + contract of Observable.subscribe; native TestScheduler replay",
     },
+    "C31": {
+        "text": "Monitor contracts with a ghost RUNNER TOKEN on the real EventLoopScheduler, each method executed symbolically as one "
+                "thread against an arbitrary environment (whenever the condition's lock is free the other threads may have scheduled, "
+                "cancelled or disposed: containers re-read, the disposed flag may have gone up, is_cancelled() of any item may have become "
+                "true). schedule_absolute: disposed -> DisposedException and nothing queued; else exactly one ScheduledItem, in ONE critical "
+                "section appended to the ready list iff due <= now (clock read under the lock) else enqueued, notify, and a thread running "
+                "self.run is started iff the runner slot is empty and stored in it (the token is minted there); returns "
+                "Disposable(item.cancel). schedule / schedule_relative: schedule_absolute at now / now + max(0, delay). run, one ARBITRARY "
+                "round of the outer loop (cut at its invariant; every inner loop cut as well): a disposed scheduler returns from the gather "
+                "section invoking nothing; an entry leaves the queue only by dequeue(), under the lock, and only when its due time <= a "
+                "clock reading taken since the lock was last (re)taken - never early, also after a wait that timed out; ready-list entries "
+                "move head-first (submission order) into the batch; an item is invoked only right after ITS is_cancelled() answered False, "
+                "outside the lock, one after the other; the idle section tests both containers and waits atomically - never while the ready "
+                "list is non-empty, at most until the head is due, untimed only when the queue is empty and exit_if_empty is off; with "
+                "exit_if_empty it clears the runner slot and returns in that very section (token given up), otherwise run returns only when "
+                "disposed. The shared fields are written and the containers touched only under the lock. NewThreadScheduler (and "
+                "ThreadPoolScheduler, which only supplies the thread factory): a fresh EventLoopScheduler(thread_factory, exit_if_empty=True) "
+                "and its same-named method.",
+        "note": "Serial execution on one thread follows from the token: actions are invoked only by run, run is started only by the section "
+                "that fills the empty slot, and the slot is cleared only by run's own last critical section. Time is integer ticks, the clock "
+                "an opaque monotone reading (A-time). PriorityQueue is used through its contract (peek/dequeue give the least due time, "
+                "earlier insertion first - proved in C28); threading.Condition / Lock / Thread through theirs (mutual exclusion, wait "
+                "releases and re-takes the lock and may return on notify or on timeout; a started thread runs its target once). One racy "
+                "unlocked READ of the disposed flag at the top of schedule_absolute is admitted (the flag only goes up; a call that began "
+                "before dispose() returned may still queue an item, which then never runs). Liveness (an item is eventually run) is not "
+                "claimed. Thorough: 6 must-fail mutants and evrun.py (real threads, real clock, lower bounds only; a slow scheduler clock; "
+                "a batch in which one action cancels the next).",
+        "technique": "monitor contracts (rely/guarantee with a ghost runner token) and loop cuts by symbolic execution of the real class, SMT; native scenario replay",
+    },
+    "C34": {
+        "text": "The EventLoopScheduler contracts of C31 (never early: an entry leaves the queue only when due by a clock reading of that "
+                "critical section, also after a timed-out wait; never after cancellation: invoked only right after its own is_cancelled() "
+                "answered False; nothing after dispose), NewThreadScheduler / ThreadPoolScheduler = a fresh exit_if_empty event loop per "
+                "call, schedule_absolute = schedule_relative(due - now); plus function contracts for TimeoutScheduler - exactly one daemon "
+                "Timer(seconds, f) started, seconds the non-negative delay (0 for schedule), f invokes the action exactly once with "
+                "(scheduler, state) and keeps its disposable, the call itself invokes nothing, the returned disposable cancels THAT timer "
+                "and disposes what the action returned; schedule_absolute = schedule_relative(due - now) - and ImmediateScheduler: schedule "
+                "invokes the action synchronously exactly once with (scheduler, state) and returns its result, schedule_relative raises "
+                "WouldBlockException iff the delay is positive and invokes nothing then, schedule_absolute = relative(due - now).",
+        "note": "Assumed contract of threading.Timer (a dependency, not verified): the function is not called before `interval` seconds have "
+                "passed and not at all once cancel() returned before that. 'Best effort' cancellation as documented: a cancel that races "
+                "with the very start of the action is not claimed by the property either ('disposed before its due time'). Otherwise as C31.",
+        "technique": "monitor and function contracts by symbolic execution of the real scheduler classes against contracts of Timer / Thread / Condition, SMT; native scenario replay",
+    },
     "C36": {
         "text": "Function contracts on the real Scheduler.to_seconds / to_datetime / to_timedelta and Scheduler.now, executed "
                 "symbolically for every kind of argument (float seconds, timedelta, timezone-aware datetime with an arbitrary utc "
